@@ -7,8 +7,9 @@ namespace Crem.Config
 
 /-! ## lookups -/
 
+/-- the entry behind a lookup: written with a key that denotes `k` (in a struct table: up to case folding) -/
 theorem get_mem {c : Cfg} {s : Sec} {k : String} {v : Val} (h : get c s k = some v) :
-    (⟨s, k, v⟩ : Entry) ∈ c := by
+    ∃ k', keyIs s k' k = true ∧ (⟨s, k', v⟩ : Entry) ∈ c := by
   induction c with
   | nil => simp [get] at h
   | cons e r ih =>
@@ -16,20 +17,32 @@ theorem get_mem {c : Cfg} {s : Sec} {k : String} {v : Val} (h : get c s k = some
     split at h
     · rename_i hc
       obtain ⟨h1, h2⟩ := hc
+      refine ⟨e.key, h2, ?_⟩
       cases e
       simp_all
-    · exact List.mem_cons_of_mem _ (ih h)
+    · obtain ⟨k', hk, hm⟩ := ih h
+      exact ⟨k', hk, List.mem_cons_of_mem _ hm⟩
 
-theorem getP_params (c : Cfg) (s : Sec) (k : String) : getP (params c s) k = get c s k := by
+/-- the field behind a key depends on the folded key only -/
+theorem fieldKind_of_keyIs {s : Sec} {k' k : String} (h : keyIs s k' k = true) : fieldKind s k' = fieldKind s k := by
+  unfold keyIs at h
+  split at h
+  · have : foldKey k' = foldKey k := by simpa using h
+    simp [fieldKind, this]
+  · have : k' = k := by simpa using h
+    rw [this]
+
+/-- in a table decoded into a Go map the keys are kept as written -/
+theorem getP_params (c : Cfg) (s : Sec) (k : String) (hs : structSec s = false) : getP (params c s) k = get c s k := by
   induction c with
   | nil => simp [params, getP, get]
   | cons e r ih =>
     unfold params get
-    by_cases hs : e.sec = s
+    by_cases hs' : e.sec = s
     · by_cases hk : e.key = k
-      · simp [hs, hk, getP]
-      · simp [hs, hk, getP, ih]
-    · simp [hs, ih]
+      · simp [hs', hk, getP, keyIs, hs]
+      · simp [hs', hk, getP, ih, keyIs, hs]
+    · simp [hs', ih]
 
 theorem getP_mem {ps : List (String × Val)} {k : String} {v : Val} (h : getP ps k = some v) :
     (k, v) ∈ ps := by
@@ -41,6 +54,13 @@ theorem getP_mem {ps : List (String × Val)} {k : String} {v : Val} (h : getP ps
     split at h
     · rename_i hk; cases h; simp [hk]
     · exact List.mem_cons_of_mem _ (ih h)
+
+theorem getP_params_A (c : Cfg) (k : String) : getP (params c .annealerParams) k = get c .annealerParams k :=
+  getP_params c _ k rfl
+theorem getP_params_M (c : Cfg) (k : String) : getP (params c .modelParams) k = get c .modelParams k :=
+  getP_params c _ k rfl
+theorem getP_params_L (c : Cfg) (k : String) : getP (params c .logDest) k = get c .logDest k :=
+  getP_params c _ k rfl
 
 /-! ## loading -/
 
@@ -78,8 +98,10 @@ theorem loadErrors_nil {r : Repairs} {c : Cfg} (h : loadErrors r c = []) :
 
 /-- every entry of a loaded configuration decodes -/
 theorem decodes_of_get {c : Cfg} (hd : c.all entryDecodes = true) {s : Sec} {k : String} {v : Val}
-    (h : get c s k = some v) : entryDecodes ⟨s, k, v⟩ = true :=
-  List.all_eq_true.mp hd _ (get_mem h)
+    (h : get c s k = some v) : entryDecodes ⟨s, k, v⟩ = true := by
+  obtain ⟨k', hk, hm⟩ := get_mem h
+  have := List.all_eq_true.mp hd _ hm
+  simpa [entryDecodes, fieldKind_of_keyIs hk] using this
 
 /-! ## the parameter store -/
 
@@ -149,7 +171,7 @@ theorem maxIterations_pos {c : Cfg} (h : maxIterations (mkLoaded c) ≠ 0) :
   rw [spec_maxIterations] at h
   simp only at h
   have hp : (mkLoaded c).annealerParams = params c .annealerParams := rfl
-  rw [hp, getP_params] at h
+  rw [hp, getP_params_A] at h
   split at h
   · rename_i n hn
     split at hn
@@ -179,7 +201,7 @@ theorem site_modulo (c : Cfg) (h : ReportingModuloZero c = false) :
           intro hx
           apply h2
           unfold annealingDiscarded
-          rw [show (mkLoaded c).logDest = params c .logDest from rfl, getP_params, hx]
+          rw [show (mkLoaded c).logDest = params c .logDest from rfl, getP_params_L, hx]
           simp
         simp [ReportingModuloZero, hi, hz, hn, hpos, h2'] at h
   · exact .inl h1
@@ -197,7 +219,7 @@ theorem site_objective (c : Cfg) (h : ObjectiveNotOffered c = false)
     unfold objective effective
     rw [show specOf kirkSpecs "DecisionVariable" = some ⟨.text, some (.str "ObjectiveValue")⟩ from rfl]
     simp only
-    rw [show (mkLoaded c).annealerParams = params c .annealerParams from rfl, getP_params]
+    rw [show (mkLoaded c).annealerParams = params c .annealerParams from rfl, getP_params_A]
     cases get c .annealerParams "DecisionVariable" with
     | none => rfl
     | some v => cases v <;> simp [validate]
@@ -256,8 +278,11 @@ theorem annealer_type_cases {r : Repairs} {c : Cfg} (h : loadErrors r c = []) :
   split at hne
   · rename_i t hg
     have := decodes_of_get hd hg
-    simp [entryDecodes, fieldKind, compat, annealerTypes] at this
-    rcases this with h | h | h <;> simp [hg, h]
+    have hk : fieldKind .annealer "Type" = some (.enum annealerTypes) := by rfl
+    simp only [entryDecodes, hk, compat, Bool.true_and] at this
+    have hmem : t ∈ annealerTypes := by simpa using this
+    simp [annealerTypes] at hmem
+    rcases hmem with h | h | h <;> simp [hg, h]
   · exact absurd rfl hne
 
 theorem isKirk_of_not_multi {r : Repairs} {c : Cfg} (h : loadErrors r c = []) (hm : annealerIsMulti c = false) :
@@ -287,10 +312,12 @@ theorem site_realModel {c : Cfg} (h : NullModelUnderRealAnnealer c = false) :
   have hg := textField_eq_str (c := c) (s := .model) (k := "Type") (d := "") (t := "NullModel") (by decide) hm
   simp [NullModelUnderRealAnnealer, modelIs, hg] at h
 
-theorem site_outputPath {c : Cfg} (h : OutputPathNotADirectory c = false) (p : String)
-    (hp : (mkLoaded c).outputPath = .path p) : pathKind p ≠ .file := by
+theorem site_outputPath {c : Cfg} (h : OutputPathNotADirectory c = false) (hu : OutputPathNotUsable c = false) (p : String)
+    (hp : (mkLoaded c).outputPath = .path p) : pathKind p = .dir ∨ pathKind p = .missing := by
   have hg := textField_eq_path (c := c) (s := .scenario) (k := "OutputPath") (d := ".") hp
-  simpa [OutputPathNotADirectory, hg] using h
+  have h1 : existsNotDir (pathKind p) = false := by simpa [OutputPathNotADirectory, hg] using h
+  have h2 : (pathKind p == .underFile) = false := by simpa [OutputPathNotUsable, hg] using hu
+  cases hk : pathKind p <;> simp_all [existsNotDir]
 
 theorem site_cpuProfile {c : Cfg} (h : CpuProfilePathNotCreatable c = false) (hd : CpuProfilePathIsDirectory c = false)
     (p : String) (hp : (mkLoaded c).cpuProfilePath = .path p) : creatable p = true := by
@@ -335,7 +362,7 @@ theorem effective_dataSource (c : Cfg) :
   unfold effective
   rw [show specOf catchmentSpecs "DataSourcePath" = some ⟨.readableFile, some (.str "")⟩ from rfl]
   simp only
-  rw [getP_params]
+  rw [getP_params_M]
   cases get c .modelParams "DataSourcePath" with
   | none => rfl
   | some v =>
@@ -368,7 +395,7 @@ theorem site_dataSource {c : Cfg} (hm : modelErr (mkLoaded c) = false)
   cases hg : get c .modelParams "DataSourcePath" with
   | none => simp [CatchmentWithoutDataSource, modelIs, hM, hg] at h5
   | some v =>
-    obtain ⟨s, hs, hval⟩ := allValid_get hv (by rw [getP_params]; exact hg)
+    obtain ⟨s, hs, hval⟩ := allValid_get hv (by rw [getP_params_M]; exact hg)
     rw [show specOf catchmentSpecs "DataSourcePath" = some ⟨.readableFile, some (.str "")⟩ from rfl] at hs
     cases hs
     cases v with
@@ -389,7 +416,7 @@ theorem effective_limit {c : Cfg} {k : String} (hk : k ∈ limitKeys) {v : Val}
   unfold effective at h
   rw [limit_spec hk] at h
   simp only at h
-  rw [getP_params] at h
+  rw [getP_params_M] at h
   cases hg : get c .modelParams k with
   | none => simp [hg] at h
   | some w =>
@@ -427,10 +454,83 @@ theorem site_limits {c : Cfg} (env : Env) (h3 : LimitNeverBinds env c = false)
       | _ => rfl
 
 
-theorem interpretPanics_false {c : Cfg} (h : CatchmentDataSourceNotLoadable c = false) :
+theorem tooLargeFor_mono {a b : Nat} (hab : a ≤ b) {m : Int} (h : tooLargeFor a m = true) : tooLargeFor b m = true := by
+  unfold tooLargeFor at h ⊢
+  simp only [decide_eq_true_eq] at h ⊢
+  exact Nat.lt_of_lt_of_le h (Nat.mul_le_mul_left _ (Nat.pow_le_pow_right (by omega) hab))
+
+theorem two_le_roundDigits (b : Bool) : 2 ≤ roundDigits b := by cases b <;> decide
+
+theorem two_le_modumbDigits (b : Bool) (t v : String) : 2 ≤ modumbDigits b t v := by
+  unfold modumbDigits
+  split
+  · omega
+  · split <;> omega
+
+theorem outputType_cfg (c : Cfg) : (mkLoaded c).outputType = enumField c .scenario "OutputType" := rfl
+theorem outputLevel_cfg (c : Cfg) : (mkLoaded c).outputLevel = enumField c .scenario "OutputLevel" := rfl
+
+theorem userDecimal_cfg (c : Cfg) (k : String) : userDecimal (mkLoaded c).modelParams k = cfgDecimal c .modelParams k := by
+  unfold userDecimal cfgDecimal
+  rw [show (mkLoaded c).modelParams = params c .modelParams from rfl, getP_params_M]
+
+theorem userDecimal_cfgA (c : Cfg) (k : String) : userDecimal (mkLoaded c).annealerParams k = cfgDecimal c .annealerParams k := by
+  unfold userDecimal cfgDecimal
+  rw [show (mkLoaded c).annealerParams = params c .annealerParams from rfl, getP_params_A]
+
+theorem annealingDiscarded_cfg (c : Cfg) : annealingDiscarded (mkLoaded c) = cfgDiscarded c := by
+  unfold annealingDiscarded cfgDiscarded
+  rw [show (mkLoaded c).logDest = params c .logDest from rfl, getP_params_L]
+
+theorem isKirk_cfg (c : Cfg) : isKirk (mkLoaded c) = annealerIs c "Kirkpatrick" := by
+  unfold isKirk annealerIs
+  show decide (enumField c .annealer "Type" = "Kirkpatrick") = decide (get c .annealer "Type" = some (.str "Kirkpatrick"))
+  unfold enumField
+  cases hg : get c .annealer "Type" with
+  | none => simp
+  | some v => cases v <;> simp
+
+theorem modelIs_of_type {c : Cfg} {t : String} (ht : t ≠ "") (h : (mkLoaded c).modelType = .str t) : modelIs c t = true := by
+  have := textField_eq_str (c := c) (s := .model) (k := "Type") (d := "") ht h
+  simp [modelIs, this]
+
+theorem runOverflows_false {c : Cfg} (h : ValueTooLargeToRound c = false) : runOverflows (mkLoaded c) = false := by
+  unfold ValueTooLargeToRound at h
+  simp only [Bool.or_eq_false_iff] at h
+  obtain ⟨⟨h1, h2⟩, h3⟩ := h
+  unfold runOverflows
+  simp only [Bool.or_eq_false_iff, annealingDiscarded_cfg, isKirk_cfg, outputType_cfg, outputLevel_cfg]
+  refine ⟨⟨?_, ?_⟩, ?_⟩
+  · by_cases hm : (mkLoaded c).modelType = .str "DumbModel"
+    · rw [modelIs_of_type (by decide) hm, Bool.true_and] at h1
+      simp [userDecimal_cfg, h1]
+    · simp [hm]
+  · by_cases hm : (mkLoaded c).modelType = .str "MultiObjectiveDumbModel"
+    · rw [modelIs_of_type (by decide) hm, Bool.true_and] at h2
+      simp only [hm, decide_true, Bool.true_and]
+      simpa [userDecimal_cfg] using h2
+    · simp [hm]
+  · simpa [userDecimal_cfgA] using h3
+
+theorem initialiseOverflows_false {c : Cfg} (h : ValueTooLargeToRound c = false) :
+    initialiseOverflows (mkLoaded c) = false := by
+  have hr := runOverflows_false h
+  unfold runOverflows at hr
+  simp only [Bool.or_eq_false_iff] at hr
+  unfold initialiseOverflows
+  by_cases hm : (mkLoaded c).modelType = .str "MultiObjectiveDumbModel"
+  · have h2 := hr.1.2
+    simp only [hm, decide_true, Bool.true_and] at h2 ⊢
+    rw [List.any_eq_false] at h2 ⊢
+    intro k hk hlarge
+    exact h2 k hk (tooLargeFor_mono (two_le_modumbDigits _ _ _) hlarge)
+  · simp [hm]
+
+theorem interpretPanics_false {c : Cfg} (h : CatchmentDataSourceNotLoadable c = false) (hv : ValueTooLargeToRound c = false) :
     interpretPanics (mkLoaded c) = false := by
+  have hio := initialiseOverflows_false hv
   cases hc : isCatchment (mkLoaded c) with
-  | false => simp [interpretPanics, hc]
+  | false => simp [interpretPanics, hc, hio]
   | true =>
     have hM := isCatchment_get hc
     have hb : dataSourceBroken (mkLoaded c) = false := by
@@ -445,7 +545,7 @@ theorem interpretPanics_false {c : Cfg} (h : CatchmentDataSourceNotLoadable c = 
             simpa [CatchmentDataSourceNotLoadable, modelIs, hM, hg] using h
           by_cases hr : readable p = true <;> simp [hr, hk]
         | _ => rfl
-    simp [interpretPanics, hb]
+    simp [interpretPanics, hb, hio]
 
 
 /-! ## conversely: each finding breaks its site's precondition -/
@@ -463,13 +563,13 @@ theorem unsafe_modulo {c : Cfg} (r : Repairs) (env : Env) (h : ReportingModuloZe
     | some v => cases v <;> simp_all
   have hd : annealingDiscarded (mkLoaded c) = false := by
     unfold annealingDiscarded
-    rw [show (mkLoaded c).logDest = params c .logDest from rfl, getP_params]
+    rw [show (mkLoaded c).logDest = params c .logDest from rfl, getP_params_L]
     simpa using h2
   have hmi : maxIterations (mkLoaded c) ≠ 0 := by
     unfold maxIterations effective
     rw [spec_maxIterations]
     simp only
-    rw [show (mkLoaded c).annealerParams = params c .annealerParams from rfl, getP_params]
+    rw [show (mkLoaded c).annealerParams = params c .annealerParams from rfl, getP_params_A]
     cases hg : get c .annealerParams "MaximumIterations" with
     | none => simp [hg] at h3
     | some v =>
@@ -506,7 +606,7 @@ theorem objective_eq (c : Cfg) : objective (mkLoaded c) =
   unfold objective effective
   rw [show specOf kirkSpecs "DecisionVariable" = some ⟨.text, some (.str "ObjectiveValue")⟩ from rfl]
   simp only
-  rw [show (mkLoaded c).annealerParams = params c .annealerParams from rfl, getP_params]
+  rw [show (mkLoaded c).annealerParams = params c .annealerParams from rfl, getP_params_A]
   cases get c .annealerParams "DecisionVariable" with
   | none => rfl
   | some v => cases v <;> simp [validate]
@@ -561,9 +661,48 @@ theorem unsafe_outputPath {c : Cfg} (r : Repairs) (env : Env) (h : OutputPathNot
   | some v =>
     cases v with
     | path p =>
-      have hk : pathKind p = .file := by simpa [hg] using h
-      exact hs.outputPath p (by simp [mkLoaded, textField, hg]) hk
+      have hk : existsNotDir (pathKind p) = true := by simpa [hg] using h
+      rcases hs.outputPath p (by simp [mkLoaded, textField, hg]) with hd | hd <;> simp [hd, existsNotDir] at hk
     | _ => simp [hg] at h
+
+theorem unsafe_outputPathStat {c : Cfg} (r : Repairs) (env : Env) (h : OutputPathNotUsable c = true) :
+    ¬ RunSafe r env (mkLoaded c) := by
+  intro hs
+  unfold OutputPathNotUsable at h
+  cases hg : get c .scenario "OutputPath" with
+  | none => simp [hg] at h
+  | some v =>
+    cases v with
+    | path p =>
+      have hk : (pathKind p == .underFile) = true := by simpa [hg] using h
+      rcases hs.outputPath p (by simp [mkLoaded, textField, hg]) with hd | hd <;> simp [hd] at hk
+    | _ => simp [hg] at h
+
+theorem unsafe_roundable {c : Cfg} (r : Repairs) (env : Env) (h : ValueTooLargeToRound c = true) :
+    ¬ RunSafe r env (mkLoaded c) := by
+  intro hs
+  have hr := hs.roundable
+  unfold runOverflows at hr
+  simp only [Bool.or_eq_false_iff, annealingDiscarded_cfg, isKirk_cfg, outputType_cfg, outputLevel_cfg] at hr
+  unfold ValueTooLargeToRound modelIs at h
+  simp only [Bool.or_eq_true, Bool.and_eq_true, decide_eq_true_eq] at h
+  rcases h with (⟨hM, hv⟩ | ⟨hM, hv⟩) | ⟨hd, hv⟩
+  · have h1 := hr.1.1
+    simp [modelType_of_get hM, userDecimal_cfg, hv] at h1
+  · have h2 := hr.1.2
+    simp only [modelType_of_get hM, decide_true, Bool.true_and] at h2
+    rw [List.any_eq_false] at h2
+    rw [List.any_eq_true] at hv
+    obtain ⟨k, hk, hlarge⟩ := hv
+    exact h2 k hk (by rw [userDecimal_cfg]; exact hlarge)
+  · have h3 := hr.2
+    simp [userDecimal_cfgA, hd, hv] at h3
+
+theorem unsafe_resultFile {c : Cfg} (r : Repairs) (env : Env) (h : ResultFileNotWritten r c = true) :
+    ¬ RunSafe r env (mkLoaded c) := by
+  intro hs
+  have := hs.resultNameable
+  simp [ResultFileNotWritten, this] at h
 
 theorem unsafe_cpuProfile {c : Cfg} (r : Repairs) (env : Env) (h : CpuProfilePathNotCreatable c = true) :
     ¬ RunSafe r env (mkLoaded c) := by
@@ -656,6 +795,21 @@ theorem unsafe_dataSourceNotLoadable {c : Cfg} (r : Repairs) (env : Env) (h : Ca
       by_cases hr : readable p = true <;> simp [hg, hr, hk] at this
     | _ => simp [hg] at h
 
+theorem malformed_notLoadable {c : Cfg} (h : CatchmentDataSetMalformed c = true) : CatchmentDataSourceNotLoadable c = true := by
+  unfold CatchmentDataSetMalformed at h
+  unfold CatchmentDataSourceNotLoadable
+  simp only [Bool.and_eq_true] at h ⊢
+  refine ⟨h.1, ?_⟩
+  cases hg : get c .modelParams "DataSourcePath" with
+  | none => simp [hg] at h
+  | some v =>
+    cases v with
+    | path p =>
+      have hk : (pathKind p == .malformedDataset) = true := by simpa [hg] using h.2
+      have : pathKind p = .malformedDataset := by simpa using hk
+      simp [this]
+    | _ => simp [hg] at h
+
 /-- needs acceptance: a negative limit is a `flt` too, but it is rejected, not stored -/
 theorem unsafe_limit {c : Cfg} (r : Repairs) (env : Env) (hm : modelErr (mkLoaded c) = false)
     (h : LimitNeverBinds env c = true) : ¬ RunSafe r env (mkLoaded c) := by
@@ -678,14 +832,14 @@ theorem unsafe_limit {c : Cfg} (r : Repairs) (env : Env) (hm : modelErr (mkLoade
       | none => simp [hg, hd] at hf
       | some ds =>
         -- the store holds the limit …
-        obtain ⟨s, hs', hval⟩ := allValid_get hv (by rw [getP_params]; exact hg)
+        obtain ⟨s, hs', hval⟩ := allValid_get hv (by rw [getP_params_M]; exact hg)
         rw [limit_spec hk] at hs'
         cases hs'
         have he : effective catchmentSpecs (params c .modelParams) k = some (.flt m) := by
           unfold effective
           rw [limit_spec hk]
           simp only
-          rw [getP_params, hg]
+          rw [getP_params_M, hg]
           simp only [hval, if_true]
         -- … and the data set is the one named
         have hds : dataSet (mkLoaded c) = some ds := by
@@ -761,8 +915,25 @@ theorem repaired_outputPath {r : Repairs} {c : Cfg} (hr : r.outputPathChecked = 
   unfold scenarioErr at hs
   rw [hr] at hs
   simp only [Bool.or_eq_false_iff, Bool.true_and] at hs
-  have h2 := hs.1.2
+  have h2 := hs.1.1.2
   unfold OutputPathNotADirectory
+  cases hg : get c .scenario "OutputPath" with
+  | none => rfl
+  | some v =>
+    cases v with
+    | path p =>
+      have ho : (mkLoaded c).outputPath = .path p := by simp [mkLoaded, textField, hg]
+      rw [ho] at h2
+      simpa using h2
+    | _ => rfl
+
+theorem repaired_outputPathStat {r : Repairs} {c : Cfg} (hr : r.outputPathStatChecked = true)
+    (hs : scenarioErr r (mkLoaded c) = false) : OutputPathNotUsable c = false := by
+  unfold scenarioErr at hs
+  rw [hr] at hs
+  simp only [Bool.or_eq_false_iff, Bool.true_and] at hs
+  have h2 := hs.1.2
+  unfold OutputPathNotUsable
   cases hg : get c .scenario "OutputPath" with
   | none => rfl
   | some v =>
